@@ -304,6 +304,24 @@ theorem C01_balance_along_unmined_events_partial (s : Store) (h : Inv s) (ops : 
     balance s' now mat m sy = .ok (storeTruth s' now mat m sy) :=
   C01_balance_partial _ (C01_inv_preserved_partial s h ops) now mat m sy
 
+/-- `rollback`, input loop (the step that used to lose zero-value credits; fixed in /repo 7fa9939): when the rolled-back
+transaction has a debit for this input and the credit it spent still exists — WHATEVER its amount, zero included — the
+credit is marked unspent again, its outpoint is put back into the unspent index under the credit's block, the debit is
+deleted and the running mined balance grows by the credit's amount. -/
+theorem C01_rollback_restores_spent_credit (rec : Tx) (blk : Block) (r : RB) (i : Nat) (inp : OutPoint)
+    (d : DebitVal) (cv : CreditVal)
+    (hd : r.s.debits.find? ⟨rec.hash, blk, i⟩ = some d) (hc : r.s.credits.find? d.credKey = some cv) :
+    let r' := rbInput rec blk r (i, inp)
+    r'.s.unspent.find? inp = some d.credKey.block ∧
+    r'.s.credits.find? d.credKey = some { cv with spent := false, spender := none } ∧
+    r'.s.debits.find? ⟨rec.hash, blk, i⟩ = none ∧
+    r'.bal = r.bal + cv.amount := by
+  have hd' : (putRawUnminedInput r.s inp rec.hash).debits.find? ⟨rec.hash, blk, i⟩ = some d := hd
+  have hc' : (putRawUnminedInput r.s inp rec.hash).credits.find? d.credKey = some cv := hc
+  simp only [rbInput, hd', unspendRawCredit, hc', contains_eq, find?_insert_self, Option.isSome_some,
+    Bool.not_true, Bool.false_eq_true, if_false, find?_erase_self]
+  exact ⟨trivial, trivial, trivial, trivial⟩
+
 /-- non-vacuity of `C01_balance_partial`: the example store satisfies `Inv` -/
 example : Inv exStore := invB_sound _ (by decide)
 
